@@ -75,7 +75,7 @@ Proof.
 Qed.
 
 Theorem C05_MacdRsi (m : strategy_compound_MacdRsiStrategy (T:=T)) :
-  adm_strategy_compound_MacdRsiStrategy m = true ->
+  adm_strategy_compound_MacdRsiStrategy (I:=snap) (T:=T) m = true ->
   strat_ok (strategy_compound_MacdRsiStrategy_Compute (I:=snap) m)
     (Nat.min (Z.to_nat (warm_of (strategy_trend_MacdStrategy_Compute (I:=snap) (strategy_compound_MacdRsiStrategy_MacdStrategy m))))
              (Z.to_nat (warm_of (strategy_momentum_RsiStrategy_Compute (I:=snap) (strategy_compound_MacdRsiStrategy_RsiStrategy m))))).
